@@ -275,7 +275,8 @@ def main(argv):
                     else:
                         dtol = math.hypot(max(q[0] for q in Pp) - min(q[0] for q in Pp), max(q[1] for q in Pp) - min(q[1] for q in Pp)) * 1e-6
                     near = [q for q in Pp if math.hypot(q[0] - meta["xy"][0], q[1] - meta["xy"][1]) < dtol * 0.999]
-                    clear_ = all(math.hypot(q[0] - meta["xy"][0], q[1] - meta["xy"][1]) > dtol * 1.001 for q in Pp)
+                    # a point is also refused on top of a block label (the "no label on a point" clause, from the other side)
+                    clear_ = all(math.hypot(q[0] - meta["xy"][0], q[1] - meta["xy"][1]) > dtol * 1.001 for q in Pp + list(prev["labels"]))
                     if near and len(D["nodes"]) != len(Pp):
                         bad = ("snap", "a point added at (%.12g, %.12g), %.3g from the existing point (%.12g, %.12g) (tolerance %.3g), was not rejected"
                                % (meta["xy"][0], meta["xy"][1], math.hypot(near[0][0] - meta["xy"][0], near[0][1] - meta["xy"][1]), near[0][0], near[0][1], dtol))
